@@ -801,6 +801,8 @@ func nativeConfirms(v *sym.Violation, out nativeOutcome) bool {
 		return strings.HasPrefix(out.Outcome, "panic:") || strings.HasPrefix(out.Outcome, "crash:")
 	case "deadlock":
 		return out.Outcome == "timeout" || strings.Contains(out.Outcome, "all goroutines are asleep")
+	case "unwind":
+		return out.Outcome == "timeout" || strings.HasPrefix(out.Outcome, "crash:") || strings.HasPrefix(out.Outcome, "panic:")
 	}
 	return false
 }
